@@ -6,7 +6,7 @@ import ast
 import re
 
 from ..cfg import cfg_of
-from ..core import AnalysisError, call_name, unparse, walk_no_nested
+from ..core import seq, AnalysisError, call_name, unparse, walk_no_nested
 from ..pattern import body_is, find, has, has_expr
 from ..report import Ctx
 
@@ -134,7 +134,7 @@ else:
     ok = False
     if len(setg) == 1 and len(choose) == 1:
         guard = [n for n in walk_no_nested(f.node) if isinstance(n, ast.If) and setg[0] in n.body]
-        ok = len(guard) == 1 and unparse(guard[0].test) == 'self.is_panel()' and cfg.dominates(cfg.node_of(guard[0]), cfg.node_of(choose[0])) and setg[0].lineno < choose[0].lineno
+        ok = len(guard) == 1 and unparse(guard[0].test) == 'self.is_panel()' and cfg.dominates(cfg.node_of(guard[0]), cfg.node_of(choose[0])) and seq(setg[0]) < seq(choose[0])
     ctx.add('C13.R3', 'Database.split:panel', ok, f, 'on panel data the rows of one individual are never separated (groups = panel column whenever is_panel())' if ok else 'on panel data the grouping by individual is not guaranteed any more', 'panel')
 
 
